@@ -87,6 +87,7 @@ use std::sync::atomic::{AtomicUsize, Ordering};
 static CURRENT: AtomicUsize = AtomicUsize::new(usize::MAX);
 const REPORTED_CAP: usize = 256;
 static REPORTED_N: AtomicUsize = AtomicUsize::new(0);
+static HALT: std::sync::atomic::AtomicBool = std::sync::atomic::AtomicBool::new(false);
 static REPORTED: [AtomicUsize; REPORTED_CAP] = [const { AtomicUsize::new(usize::MAX) }; REPORTED_CAP];
 
 #[no_mangle]
@@ -425,8 +426,16 @@ fn main() {
                             let mine = if t == 0 { i } else { j };
                             if t == 0 {
                                 CURRENT.store(k, Ordering::Relaxed);
+                                // enough evidence: a racy subject produces a report per scenario, and the
+                                // reports of one shard would run to hundreds of megabytes
+                                if REPORTED_N.load(Ordering::Relaxed) >= 48 {
+                                    HALT.store(true, Ordering::Relaxed);
+                                }
                             }
                             barrier.wait();
+                            if HALT.load(Ordering::Relaxed) {
+                                break;
+                            }
                             let g = run_call(&calls[mine].1, &base);
                             if g != expected[mine] {
                                 out.push(format!("MISMATCH pair {} {} thread={} call {} got={} expected={}", i, j, t, mine, g, expected[mine]));
@@ -447,6 +456,9 @@ fn main() {
                 if let Some((i, j)) = pairs.get(k) {
                     println!("RACE-IN pair {} {}", i, j);
                 }
+            }
+            if HALT.load(Ordering::Relaxed) {
+                println!("HALTED after {} scenarios with reports (the remaining scenarios of this shard were not run)", REPORTED_N.load(Ordering::Relaxed));
             }
             println!("DONE {}", pairs.len());
         }
